@@ -1,6 +1,6 @@
 (* Entry points of the extracted model: one number per model function. *)
 From Coq Require Import ZArith List.
-From Tdda Require Import Base.Sexp RefTest.Argv RefTest.Tagged.
+From Tdda Require Import Base.Sexp RefTest.Argv RefTest.Tagged Serial.DateFmt.
 Import ListNotations.
 Open Scope Z_scope.
 
@@ -8,5 +8,6 @@ Definition dispatch (n : Z) (s : sexp) : sexp :=
   match n with
   | 1 => argv_entry s
   | 2 => tagged_entry s
+  | 3 => translate_entry s
   | _ => L [A (-1)]
   end.
